@@ -13,6 +13,7 @@ def bodyOf : Kind → Val → Bytes
   | .binary, .bytes b => b
   | .string _, .bytes b => b
   | .wire, .bytes b => b
+  | .signature, .bytes b => b
   | .name, .name n => encComps n
   | .interestName, .name n => encComps (stripDigest n)
   | .struct _ fs, .struct vs => encFields fs vs
@@ -242,6 +243,18 @@ theorem readKind_prim (k : Kind) (v : Val) (hwf : wfKind k = true) (hk : k.multi
   · -- name
     rename_i n
     simpa [readKind] using readName_spec n rest hv
+  · -- signature (read by `readWire`, exactly like a wire field)
+    rename_i b
+    simp only [maxLen] at hv
+    refine ⟨0, ?_⟩
+    simp only [readKind, readWire]
+    rw [if_neg (goInt_nonneg _ (by omega)), if_neg, if_neg (by simp)]
+    · simp
+    · intro h
+      have := h.1
+      have h2 := h.2
+      simp at this
+      simp [this] at h2
   · -- interestName
     rename_i n
     have hs := stripDigest_id n hv.2
